@@ -76,7 +76,13 @@ def render(ast, titles):
         _, s, c1, c2 = ast
         return qual(titles, s, False) + f'{letters(c1)}:{letters(c2)}'
     if k == 'bin':
-        return render(ast[2], titles) + ast[1] + render(ast[3], titles)
+        op, l, r = ast[1], ast[2], ast[3]
+        lt, rt = render(l, titles), render(r, titles)
+        if op == '*' and l[0] == 'bin' and l[1] in '+-':
+            lt = '(' + lt + ')'
+        if op in '*-' and r[0] == 'bin':
+            rt = '(' + rt + ')'
+        return lt + op + rt
     if k == 'par':
         return '(' + render(ast[1], titles) + ')'
     if k == 'agg':
@@ -389,6 +395,9 @@ def venc(v, Empty):
 
 
 # ------------------------------------------------------------------------------------------------ checking one DAG model
+# a quoted sheet title on a single-cell reference followed, later in the same formula, by a quoted title on a range: the random
+# generator avoids this shape (it has its own hand-made witness, family lookalike_quoted_title_pair)
+QUOTED_PAIR = re.compile(r"'[^']*'!\$?[A-Z]+\$?\d+(?![\d:]).*'[^']*'!\$?[A-Z]+\$?\d*:")
 NAME_RE = re.compile(r"_cell_preprocessor\('([^']*)'\)")
 CELL_RE = re.compile(r'_(\d+)_(\d+)_(\d+)$')
 
@@ -412,6 +421,8 @@ def check_model(job):
     colfam = family == 'column'
 
     def fail(key, what, entry):
+        if family == 'lookalike_quoted_title_pair' and key.startswith('C03.dag.rejected'):
+            key = 'C03.dag.quoted_title_spans_two_references'
         if colfam:
             key = 'C03.column_range.' + key.split('.')[1] + '.' + key.split('.')[2]
         fails.append({'key': key, 'what': f'[{family} #{gid}, {size} cells] ' + what, 'size': size,
@@ -839,6 +850,9 @@ def lookalike_jobs():
                                               [1, 0, 0, 'f', ['bin', '+', ['agg', 'SUM', [['cols', 0, 0, 1]]], ['agg', 'COUNT', [['cols', 0, 0, 0]]]]],
                                               [1, 1, 0, 'f', ['bin', '+', R_(0, 1, 0), R_(0, 1, 1)]]],
         stages=[{'ov': [], 'ref': True}, {'ov': [[0, 0, 2, 5]], 'ref': True}, {'ov': [[0, 0, 0, 3], [0, 0, 4, 2]], 'ref': True}])
+    add('quoted_title_pair', T2, [[0, 0, 0, 'k', 1], [1, 0, 0, 'k', 3], [1, 0, 1, 'k', 4],
+                                  [0, 1, 0, 'f', ['bin', '+', R_(0, 0, 0, False, True), ['agg', 'SUM', [['rng', 1, 0, 0, 0, 1, False]]]]]],
+        picks=[(0, 0, 0)])
     # running total: B(i) = B(i-1) + A(i)
     for depth in (150, 250):
         cells = [[0, 0, i, 'k', i % 7] for i in range(depth)] + [[0, 1, 0, 'f', R_(None, 0, 0)]] + \
@@ -924,7 +938,7 @@ class Gen:
             best = None
             for attempt in range(25):
                 ast = self.formula(pos, positions[:i], later, asts)
-                if ast is None:
+                if ast is None or QUOTED_PAIR.search(render(ast, titles)):
                     continue
                 try:
                     if set(ref.deps(ast, pos[0], {})) & later:
